@@ -87,7 +87,7 @@ TOKEN_CLASSES = [lang.KEYWORDS, lang.ALL_OPS + ODD_OPS, [w for g in lang.ARITH_A
 
 FUNC_ARGS = ["ext", "name", "size", "modified", "'abc'", "5", "-3", "2.5", "99999999999999999999",
              "'2020-02-30'", "is_dir", "0", "x", "'a b'", "-1", "'%.1 k'", "path", "1e400", "'-'", "2020-05-05",
-             "1", "3", "'zz'", "mode", "'%.99999999999'", "'%.65536'", "'%.70000 kb'", "'%.2 q'", "-9223372036854775808", "2147483648"]
+             "1", "3", "'zz'", "mode", "'%.99999999999'", "'%.65536'", "'%.70000 kb'", "''", "'é日本'", "'日本語テキスト'", "'2020-0\u0661-01'", "'\u0663'", "'2020-01-01 1\u0663:00'", "'%.2 q'", "-9223372036854775808", "2147483648"]
 
 BAD_REGEX = ["'('", "'[a'", "'*'", "')'", "'a)'", "'(?P<n'", "'[z-a]'", "'a{2,1}'", "'\\'"]
 # always quoted: an unquoted `2020-13-01` is lexed as the arithmetic expression `2020-13` minus `01`
@@ -95,7 +95,11 @@ BAD_REGEX = ["'('", "'[a'", "'*'", "')'", "'a)'", "'(?P<n'", "'[z-a]'", "'a{2,1}
 # date literal at all - see DESIGN.md section 7.
 BAD_DATES = ["'2020-02-30'", "'2020-13-01'", "'2021-02-29'", "'2020-01-01 25:00'", "'2020-01-01 10:61'",
              "'2020-01-01 10:10:61'", "'-x'", "'+y'", "'zz'", "'2020-00-10'", "'2020-04-31'", "'2020-01-01 24'",
-             "'-99999999999999999999'", "'+9223372036854775807'"]
+             "'-99999999999999999999'", "'+9223372036854775807'",
+             # no date part: these go to the English date parser (chrono-english), which used to panic on them
+             "'99:99:99'", "'apr 1 25:61'", "'10.70'", "'12:00:61'", "'next fri 30:00'", "'12345.6'", "'é日本語の日付'", "'1 jan 2020 24:00'",
+             # digits that are not ASCII digits (the date pattern used to accept them, the number parser does not)
+             "'2020-0\u0661-01'", "'\u0662\u0660\u0662\u0660-01-01'"]
 BAD_BOOLS = ["maybe", "2", "'tru'", "10", "oui", "-1", "truee"]
 DATE_OPS = ["=", "!=", ">", ">=", "<", "<=", "===", "!==", "eq", "ne", "gt", "lte"]
 
@@ -426,25 +430,48 @@ PINNED = [
     ("format-precision-overflow", _c("iii", ["select format_size(size, '%.99999999999') from . into list"], False)),
     ("format-precision-65536", _c("iii", ["select format_size(size, '%.65536') from ."], False)),
     ("regexp-root-malformed", _c("vi", ["name from './[a' depth 1 rx"], False)),
+    ("date-function-non-ascii", _c("iii", ["select day('é日本') from . into list"], False)),
+    ("english-date-time-out-of-range", _c("iv:date", ["name from . where modified > '99:99:99'"], True)),
+    ("date-non-ascii-digit", _c("iv:date", ["select name from . where modified = '2020-0\u0661-01'"], True)),
+    ("english-date-decimal", _c("iii", ["select day('922354.75817', '2') from . limit 1"], False)),
 ]
 
 
+def _fn_argv(data):
+    """eval_total input -> a query for the real binary, or None when the strings cannot be spelled in a query."""
+    parts = data.decode("utf-8", "replace").split("\x01")
+    fname = parts[0].strip()
+    args = parts[1:5]
+    if not fname or any(("'" in a) or ("\0" in a) for a in args):
+        return None
+    return ["select %s(%s) from . limit 1" % (fname, ", ".join("'%s'" % a for a in args))]
+
+
 def supplement(tier, seed):
-    """libFuzzer campaign on Parser::parse (fuzz target parse_total); artifacts are re-judged on the real binary."""
+    """libFuzzer campaigns: Parser::parse (parse_total) and function::get_value on arbitrary argument strings
+    (eval_total, needs the error_exit hook); artifacts are re-judged on the real binary."""
     from .. import fuzzrun
     ok, msg = fuzzrun.build_targets()
     if not ok:
         return {"available": False, "reason": msg[-300:]}
     res = fuzzrun.campaign("parse_total", 10000 if tier == "quick" else 400000, seed)
-    arts = res.pop("artifacts", [])
+    ev = fuzzrun.campaign("eval_total", 20000 if tier == "quick" else 1000000, seed, max_len=96,
+                          seeds="seeds-eval", dictionary="dict-eval.txt")
+    arts = [("parse", k, d) for k, d in res.pop("artifacts", [])] + [("eval", k, d) for k, d in ev.pop("artifacts", [])]
+    res = {"available": res.get("available") and ev.get("available"), "parse_total": res, "eval_total": ev}
     res["artifacts_found"] = len(arts)
     res["reproduced_on_binary"] = 0
     res["not_reproduced_discarded"] = 0
     vio = []
-    for kind, data in arts[:20]:
-        text = data.decode("utf-8", "replace")
-        argv = [a for a in text.split("\x01")[:12]]
-        if not any(a.strip() for a in argv) or any("\0" in a for a in argv):
+    for target, kind, data in arts[:40]:
+        if target == "parse":
+            text = data.decode("utf-8", "replace")
+            argv = [a for a in text.split("\x01")[:12]]
+            if not any(a.strip() for a in argv) or any("\0" in a for a in argv):
+                argv = None
+        else:
+            argv = _fn_argv(data)
+        if argv is None:
             res["not_reproduced_discarded"] += 1
             continue
         case = {"cls": "fuzz", "argv": argv, "expect2": False}
